@@ -1,0 +1,79 @@
+//go:build verif
+
+package protocol
+
+// Add-only export file for the verification harness in /verif (build tag
+// "verif").  Nothing here is compiled into normal builds.
+
+import "reflect"
+
+type VerifStructTag = structTag
+
+type VerifMessageType struct {
+	Version  int16
+	Flexible bool
+	Type     reflect.Type
+}
+
+type VerifApiType struct {
+	Key       ApiKey
+	Override  int // -1 for the regular registration, else the OverrideTypeKey
+	Requests  []VerifMessageType
+	Responses []VerifMessageType
+}
+
+func verifTypes(ts []messageType) []VerifMessageType {
+	out := make([]VerifMessageType, len(ts))
+	for i, t := range ts {
+		out[i] = VerifMessageType{Version: t.version, Flexible: t.flexible, Type: t.gotype}
+	}
+	return out
+}
+
+// VerifApiTypes lists every registered request/response type per version.
+func VerifApiTypes() []VerifApiType {
+	var out []VerifApiType
+	for k := range apiTypes {
+		t := apiTypes[k]
+		if len(t.requests) == 0 && len(t.responses) == 0 {
+			continue
+		}
+		out = append(out, VerifApiType{Key: ApiKey(k), Override: -1, Requests: verifTypes(t.requests), Responses: verifTypes(t.responses)})
+	}
+	for k := range overrideApiTypes {
+		for ok, t := range overrideApiTypes[k] {
+			out = append(out, VerifApiType{Key: ApiKey(k), Override: int(ok), Requests: verifTypes(t.requests), Responses: verifTypes(t.responses)})
+		}
+	}
+	return out
+}
+
+// VerifForEachStructField / VerifForEachStructTag expose the package's own
+// struct walker and tag parser, so the translator sees what the codec sees.
+// The field is identified by its ordinal in t.Field(i) (the package's index
+// type differs between the default and the unsafe build).
+func VerifForEachStructField(t reflect.Type, do func(typ reflect.Type, ordinal int, tag string)) {
+	next := 0
+	forEachStructField(t, func(typ reflect.Type, _ index, tag string) {
+		for ; next < t.NumField(); next++ {
+			f := t.Field(next)
+			ft, ok := f.Tag.Lookup("kafka")
+			if !ok {
+				ft = "|"
+			}
+			if f.Type == typ && ft == tag && !(f.PkgPath != "" && f.Name != "_") {
+				do(typ, next, tag)
+				next++
+				return
+			}
+		}
+		panic("verif: struct field not found: " + t.String())
+	})
+}
+
+func VerifForEachStructTag(tag string, do func(VerifStructTag) bool) { forEachStructTag(tag, do) }
+
+// VerifIsReaderFrom / VerifIsWriterTo mirror the escape-type tests of
+// decodeFuncOf / encodeFuncOf.
+func VerifIsReaderFrom(t reflect.Type) bool { return reflect.PtrTo(t).Implements(readerFrom) }
+func VerifIsWriterTo(t reflect.Type) bool   { return reflect.PtrTo(t).Implements(writerTo) }
